@@ -208,8 +208,118 @@ def m_string_push_str(ex, c, args):
     return MODELS["String::push_str"](ex, c, args)
 
 
+def _pat_bytes(p):
+    if isinstance(p, int):
+        return tuple(chr(p).encode("utf-8"))
+    if isinstance(p, str):
+        return tuple(p.encode("utf-8"))
+    if type(p) is BStr and all(isinstance(b, int) for b in p.b):
+        return tuple(p.b)
+    raise Unmodelled("symbolic pattern %r" % (p,))
+
+
+def _match_at(ex, bs, i, pat):
+    """does the concrete byte pattern occur at position i of the (symbolic) bytes? forks"""
+    if i + len(pat) > len(bs):
+        return False
+    for k, pb in enumerate(pat):
+        b = bs[i + k]
+        if isinstance(b, int):
+            if b != pb:
+                return False
+        elif not ex.branch(b == pb, "pat"):
+            return False
+    return True
+
+
+def bstr_method(ex, c, args):
+    """str methods on byte strings with symbolic bytes; sub-slices stay references into the base"""
+    base = args[0]
+    v = rda(base)
+    bs = list(v.b)
+    n = len(bs)
+    m = c.method
+    a = [rda(x) for x in args[1:]]
+    if m == "starts_with":
+        return _match_at(ex, bs, 0, _pat_bytes(a[0]))
+    if m == "ends_with":
+        pat = _pat_bytes(a[0])
+        return len(pat) <= n and _match_at(ex, bs, n - len(pat), pat)
+    if m == "strip_prefix":
+        pat = _pat_bytes(a[0])
+        if _match_at(ex, bs, 0, pat):
+            return SOME(sub(base, ("sub", len(pat), n)))
+        return NONE
+    if m == "strip_suffix":
+        pat = _pat_bytes(a[0])
+        if len(pat) <= n and _match_at(ex, bs, n - len(pat), pat):
+            return SOME(sub(base, ("sub", 0, n - len(pat))))
+        return NONE
+    if m in ("split_once", "find", "contains"):
+        pat = _pat_bytes(a[0])
+        for i in range(0, n - len(pat) + 1):
+            if _match_at(ex, bs, i, pat):
+                if m == "find":
+                    return SOME(i)
+                if m == "contains":
+                    return True
+                return SOME((sub(base, ("sub", 0, i)), sub(base, ("sub", i + len(pat), n))))
+        return False if m == "contains" else NONE
+    if m in ("trim_end", "trim_start", "trim"):
+        lo, hi = 0, n
+        ws = (0x20, 0x0A, 0x09, 0x0D)
+
+        def is_ws(b):
+            if isinstance(b, int):
+                return b in ws
+            return ex.branch(z3.Or(*[b == w for w in ws]), "ws")
+        if m in ("trim_end", "trim"):
+            while hi > lo and is_ws(bs[hi - 1]):
+                hi -= 1
+        if m in ("trim_start", "trim"):
+            while lo < hi and is_ws(bs[lo]):
+                lo += 1
+        return sub(base, ("sub", lo, hi))
+    if m == "is_char_boundary":
+        p = a[0]
+        if p == 0 or p == n:
+            return True
+        if p > n:
+            return False
+        return not in_range(ex, bs[p], 0x80, 0xBF, "boundary")
+    if m == "replace":
+        pat = _pat_bytes(a[0])
+        rep = _pat_bytes(a[1])
+        out = []
+        i = 0
+        while i < n:
+            if _match_at(ex, bs, i, pat):
+                out.extend(rep)
+                i += len(pat)
+            else:
+                out.append(bs[i])
+                i += 1
+        return BStr(tuple(out))
+    if m == "bytes":
+        return PyIter("vec_into", Seq(tuple(bs)), 0)
+    if m == "to_uppercase":
+        out = []
+        for b in bs:
+            if isinstance(b, int):
+                out.append(ord(chr(b).upper()) if b < 128 else b)
+            else:
+                # ASCII letters only: forks on the lower-case range
+                if ex.branch(z3.And(z3.UGE(b, 0x61), z3.ULE(b, 0x7A)), "upper"):
+                    out.append(b - 0x20)
+                else:
+                    out.append(b)
+        return BStr(tuple(out))
+    raise Unmodelled("str::%s on a byte string" % m)
+
+
 def install_hooks(ex):
     """hooks the generic models consult for byte strings"""
+    ex.bstr_method = bstr_method
     def slice_check(ex_, v, a, b):
         # slicing a str panics when a or b is not a char boundary: a boundary is the start of a
         # sequence, i.e. the byte there is not a continuation byte
